@@ -307,6 +307,11 @@ def exact_obj(o):
     return ('?', repr(o))
 
 
+def exact_subs(subs):
+    """Every attribute of every Substance of the world, and its hash (Substances are dictionary keys everywhere)."""
+    return tuple((n, exact_obj(s), hash(s)) for n, s in sorted(subs.items()))
+
+
 def exact_world(world):
     return tuple(exact_obj(world[n]) for n in sorted(world))
 
@@ -365,6 +370,7 @@ class Explorer:
         path_objects = [] if self.track_path else None
         subs, world = build(pp, self.vidx, self.spec, history, path_objects)
         pre_exact = exact_world(world)
+        subs_exact = exact_subs(subs)
         out, viols = [], []
         stats = {'accepted': 0, 'refused': 0}
         k = len(history)
@@ -380,9 +386,13 @@ class Explorer:
                 obs = (apply_via_recipe if self.via_recipe else apply)(pp, subs, world, act)
             post = commit(world, obs) if obs['ok'] else world
             ctx = {'pp': pp, 'subs': subs, 'k': k, 'case': self.case(hist_idx, act), 'pre_exact': pre_exact,
-                   'path_objects': path_objects or ()}
+                   'path_objects': path_objects or (), 'subs_exact': subs_exact}
             for m in self.monitors:
                 viols.extend(m(ctx, world, act, obs, post) or ())
+            if exact_subs(subs) != subs_exact:
+                subs, world = build(pp, self.vidx, self.spec, history, path_objects)      # a Substance was written to
+                subs_exact = exact_subs(subs)
+                pre_exact = exact_world(world)
             if exact_world(world) != pre_exact or any(exact_obj(o) != fp for _, fp, o in path_objects or ()):
                 # the call modified its arguments in place (C04 reports it); restore a clean pre-state
                 path_objects = [] if self.track_path else None
@@ -478,6 +488,7 @@ def replay_case(pp, case, monitors):
     env.clear_caches(pp)
     act = case['act']
     pre_exact = exact_world(world)
+    subs_exact = exact_subs(subs)
     if case.get('repeat'):
         held = {}
         obs = apply(pp, subs, world, act, held)
@@ -486,7 +497,8 @@ def replay_case(pp, case, monitors):
     else:
         obs = (apply_via_recipe if case.get('via_recipe') else apply)(pp, subs, world, act)
     post = commit(world, obs) if obs['ok'] else world
-    ctx = {'pp': pp, 'subs': subs, 'k': len(history), 'case': case, 'pre_exact': pre_exact, 'path_objects': path_objects}
+    ctx = {'pp': pp, 'subs': subs, 'k': len(history), 'case': case, 'pre_exact': pre_exact, 'path_objects': path_objects,
+           'subs_exact': subs_exact}
     vs = []
     for m in monitors:
         vs.extend(m(ctx, world, act, obs, post) or ())
